@@ -31,7 +31,7 @@ PROPS = {
         'level_text': 'Runtime half only: every combinator of the runtime crate is proved (Verus, all inputs, all stacks, all child node types) to compute the PEG denotation `sem` taken from the property statement: leaves, optional, pair, array, choice 2..12, predicates, PUSH/PEEK/POP/DROP, check paths of sequences 2..12 and of all repetitions, full-input wrappers. Parse paths of sequences/repetitions and the _ALL/slice stack nodes are labelled Kani-bounded stand-ins. The generator translation (grammar -> type tree) is not covered.',
         'level_note': NOTE_COMMON + 'That `sem` coincides with pest where pest is defined is an assumption (textbook PEG semantics); generator half n/a.',
         'technique': TECH,
-        'verus': ['comb', 'choice', 'nodes', 'seqchk', 'repchk', 'wrappers'],
+        'verus': ['comb', 'choice', 'nodes', 'seqchk', 'repchk', 'wrappers', 'leaf', 'input'],
         'expanded': True,
         'kani': [],
         'assumptions': ['sem (PEG denotation with full backtracking, failing empty-stack operations) is pest\'s behaviour where pest is defined',
@@ -42,7 +42,7 @@ PROPS = {
         'level_text': 'Both methods of the node trait carry the same postcondition over the same `sem`; Verus proves each extracted try_parse_partial_with and try_check_partial_with body against it (optional, pair, array, choice 2..12, predicates, stack nodes, leaves) and the check/parse full-input wrappers against one `full_ok` predicate, so verdict, offset and stack agree for all inputs. For sequences/repetitions the check path is proved and parse=check is a Kani-bounded stand-in. Identity of the error report is outside Verus (R1 erases the tracker) and is Kani-bounded.',
         'level_note': NOTE_COMMON + 'Error-report identity is only bounded.',
         'technique': TECH,
-        'verus': ['comb', 'choice', 'nodes', 'seqchk', 'repchk', 'wrappers'],
+        'verus': ['comb', 'choice', 'nodes', 'seqchk', 'repchk', 'wrappers', 'leaf'],
         'expanded': True,
         'kani': [],
         'assumptions': ['R1 (tracker erasure) is behaviour-preserving for match/offset/stack results'],
@@ -96,6 +96,36 @@ PROPS = {
         'kani': [],
         'assumptions': ['which of 0 / 1 / INHERITED reaches each rule reference is decided by generator code outside the verified set'],
     },
+    'C08': {
+        'level': 'proof',
+        'level_text': 'Verus proves the default methods of trait Input (match_string, match_insensitive, match_range, match_char_by, next, at_start, at_end, span, as_position) and the three implementations (Position, SubInput1, SubInput2: byte_offset, input, get, cursor, start, end) and the AsInput conversions against contracts in which result and advance are functions of rest(ctx, off) = bytes[off..end] alone, with SOI/EOI decided by off == start / off == end; so nothing at or beyond the span end can influence a matcher. skip and skip_until have their contracts assumed in Verus (unsupported constructs) and checked by bounded native enumeration; the end-to-end statement (Span/Position vs fresh copy on grammars) is a bounded stand-in.',
+        'level_note': NOTE_COMMON + 'Assumes the specs of the std shims (R3) and four UTF-8 lemmas (admitted; cross-checked by nb_shims); ptr::eq on inputs modelled as value equality.',
+        'technique': TECH,
+        'verus': ['input', 'leaf'],
+        'expanded': False,
+        'kani': [],
+        'native': [
+            ('nb_input', 'nb_skip_until_contract', 'all strings<=4 chars over {a,*,/,é,€,😀} x all spans x 3 cursors x 5 needle sets', 'q'),
+            ('nb_input', 'nb_skip_contract', 'all strings<=4 chars x all spans x n<6', 'q'),
+            ('nb_input', 'nb_shims', 'std shims + UTF-8 lemmas on all strings<=3 chars', 'q'),
+        ],
+        'assumptions': ['contracts of Input::skip and Input::skip_until are assumed in Verus and checked only within the stated bound',
+                        'UTF-8 lemmas lemma_str_valid, lemma_valid_prefix_boundary, lemma_sub_boundary, lemma_boundary_ends are admitted'],
+    },
+    'C09': {
+        'level': 'proof',
+        'level_text': 'The representation invariant (start <= off <= end <= len, all three on UTF-8 boundaries) is a pre- and postcondition of every Input method and of every node contract; Verus proves it preserved by all default methods, by the three Input impls (both the checked and the unchecked slicing branch: cfg!(debug_assertions) is an arbitrary boolean), by Position/Span::new_unchecked call sites (their debug assertions become preconditions) and by every combinator; usize additions on the cursor are proved not to overflow. Absence of panics in parse paths of sequences/repetitions and in error rendering is a bounded stand-in.',
+        'level_note': NOTE_COMMON + 'Same shim/UTF-8 assumptions as C08.',
+        'technique': TECH,
+        'verus': ['input', 'leaf', 'nodes', 'comb'],
+        'expanded': False,
+        'kani': [],
+        'native': [
+            ('nb_input', 'nb_skip_contract', 'all strings<=4 chars x all spans x n<6', 'q'),
+            ('nb_input', 'nb_shims', 'std shims + UTF-8 lemmas on all strings<=3 chars', 'q'),
+        ],
+        'assumptions': ['UTF-8 lemmas admitted (see C08)', 'unsafe get_unchecked is given the same precondition as checked slicing (R3 shim)'],
+    },
     'C19': {
         'level': 'proof',
         'level_text': 'Verus proves for all MIN, MAX, SKIP and element types the check paths of RepeatMin / RepeatMinMax / AtomicRepeat and try_check_unit against the greedy bounded-repetition denotation (fails iff a unit fails before MIN, stops at MAX, state after the last matched unit so an unmatched skip is not consumed), and both paths of [T;N], (T1,T2), Option<T>. Parse paths of the repetitions are Kani-bounded on a MIN/MAX grid.',
@@ -121,5 +151,5 @@ NOT_APPLICABLE = {
     'C16': 'getter code is assembled as TokenStreams by the generator (graph.rs); property is about behaviour of emitted accessors for every grammar — no contract over quote! output is expressible; would be translation validation, a different family (DESIGN.md §6)',
     'C20': 'relation between separate generator runs / separately compiled option combinations; outside any single-function contract (DESIGN.md §6)',
 }
-for _p in ['C02', 'C08', 'C09', 'C10', 'C12', 'C13', 'C14', 'C15', 'C17', 'C18']:
+for _p in ['C02', 'C10', 'C12', 'C13', 'C14', 'C15', 'C17', 'C18']:
     NOT_APPLICABLE.setdefault(_p, 'not built yet in this session (planned in DESIGN.md §5); not claimed until its check exists')
